@@ -319,6 +319,134 @@ def env_obj(E):
                 "transition_info": comp("e_tinfo", 3, False)}, "env")
 
 
+# ------------------------------------------------------------------------------------------------ C04: on-policy step
+def env_obj_full(E):
+    """environment record with its action space visible: isinstance(env.action_space, Box) and the bounds used for clipping"""
+    o = env_obj(E)
+    o.fields["action_space"] = Obj({"low": Sc("O", f"(sp_lo (e_asp {E}))"), "high": Sc("O", f"(sp_hi (e_asp {E}))"),
+                                    "@isbox": Sc("B", f"(sp_is_box (e_asp {E}))")}, "space")
+    return o
+
+
+def _p_isinstance(ex, n, args, kwargs):
+    if len(args) == 2 and isinstance(args[0], Obj) and "@isbox" in args[0].fields and isinstance(args[1], Static) and args[1].v == "Box":
+        return args[0].fields["@isbox"]
+    fail(n, "unsupported isinstance test")
+
+
+def _p_clip_space(ex, n, args, kwargs):
+    """jnp.clip(action, space.low, space.high) with the (possibly infinite) bounds of a space descriptor"""
+    if len(args) == 3 and not kwargs and all(isinstance(a, Sc) for a in args) and args[1].ty == "O" and args[2].ty == "O":
+        return Sc("R", f"(clipQ {args[1].t} {args[2].t} {to_sc(args[0], 'R', n).t})")
+    fail(n, "unsupported clip")
+
+
+def acpol_obj(P):
+    def act(ex, n, args, kwargs):
+        if len(args) != 2 or set(kwargs) != {"key", "action_mask"}:
+            fail(n, "action_and_value call form")
+        x = f"(p_act {P} {args[0].t} {args[1].t} {kwargs['key'].t} {kwargs['action_mask'].t})"
+        return (Sc("O", f"(fst (fst (fst {x})))"), Sc("R", f"(snd (fst (fst {x})))"), Sc("R", f"(snd (fst {x}))"), Sc("R", f"(snd {x})"))
+
+    def value(ex, n, args, kwargs):
+        if len(args) != 2 or kwargs:
+            fail(n, "value call form")
+        return (Static(None), Sc("R", f"(p_value {P} {args[0].t} {args[1].t})"))
+
+    def reset(ex, n, args, kwargs):
+        if args or set(kwargs) != {"key"}:
+            fail(n, "reset call form")
+        return Sc("O", f"(p_reset {P} {kwargs['key'].t})")
+    return Obj({"action_and_value": Prim(act), "value": Prim(value), "reset": Prim(reset)}, "policy")
+
+
+def _onstep_bind():
+    def on_step(ex, n, args, kwargs):
+        if len(args) != 1 or set(kwargs) != {"key"} or not isinstance(args[0], Obj):
+            fail(n, "on_step call form")
+        return Obj({"ctx": args[0], "key": kwargs["key"]}, "callback_result")
+
+    def step_context(ex, n, args, kwargs):
+        names = ["state", "env", "policy", "done", "reward", "locals"]
+        f = dict(zip(names, args)); f.update(kwargs)
+        if set(f) != set(names):
+            fail(n, "StepContext form")
+        return Obj(f, "StepContext")
+    return {"self": Obj({"gamma": R("gamma")}, "algo"), "env": env_obj_full("E"), "policy": acpol_obj("P"),
+            "state": Obj({"env_state": O("es"), "policy_state": O("ps"), "callback_state": O("cbs")}, "step_state"),
+            "key": K("k"), "callback": Obj({"on_step": Prim(on_step)}, "callback"),
+            "@StepContext": Prim(step_context), "@locals": Prim(lambda ex, n, a, k: Static("locals")), "@Box": Static("Box"),
+            "@isinstance": Prim(_p_isinstance), "@filter_cond": BUILTIN_COND,
+            "@AbstractOnPolicyStepState": Prim(lambda ex, n, a, k: Obj(dict(zip(["env_state", "policy_state", "callback_state"], a)), "step_state")
+                                               if len(a) == 3 and not k else fail(n, "step state form")),
+            "@RolloutBuffer": Prim(lambda ex, n, a, k: Obj(k, "RolloutBuffer") if not a else fail(n, "RolloutBuffer form"))}
+
+
+def _onstep_out(res, ex):
+    if not (isinstance(res, tuple) and len(res) == 2 and isinstance(res[0], Obj) and isinstance(res[1], Obj)):
+        raise TranslateError("step no longer returns (step state, buffer row)")
+    st, row = res
+    want = {"observations", "actions", "rewards", "dones", "log_probs", "values", "states", "action_masks"}
+    if set(row.fields) != want:
+        raise TranslateError(f"the buffer row has fields {sorted(row.fields)}")
+    cb = st.fields["callback_state"]
+    if not (isinstance(cb, Obj) and cb.name == "callback_result"):
+        raise TranslateError("the callback state is not the result of callback.on_step")
+    ctx = cb.fields["ctx"]
+    if term_of(ctx.fields["state"]) != "cbs":
+        raise TranslateError("the callback is not handed its own previous state")
+    outs = [("env_state", "S", term_of(st.fields["env_state"])), ("policy_state", "PS", term_of(st.fields["policy_state"])),
+            ("obs", "O", term_of(row.fields["observations"])), ("act", "Q", term_of(row.fields["actions"])),
+            ("rew", "Q", term_of(row.fields["rewards"])), ("done", "bool", term_of(row.fields["dones"])),
+            ("logp", "Q", term_of(row.fields["log_probs"])), ("val", "Q", term_of(row.fields["values"])),
+            ("pstate", "PS", term_of(row.fields["states"])), ("mask", "option (list bool)", term_of(row.fields["action_masks"])),
+            ("cb_done", "bool", term_of(ctx.fields["done"])), ("cb_reward", "Q", term_of(ctx.fields["reward"])),
+            ("cb_key", "kpath", term_of(cb.fields["key"]))]
+    return outs
+
+
+# ------------------------------------------------------------------------------------------------ C05: off-policy step
+def _offstep_bind():
+    b = _onstep_bind()
+    pol = acpol_obj("P")
+
+    def call(ex, n, args, kwargs):
+        if len(args) != 2 or set(kwargs) != {"key"}:
+            fail(n, "behaviour policy call form")
+        x = f"(p_act P {args[0].t} {args[1].t} {kwargs['key'].t} None)"
+        return (Sc("O", f"(fst (fst (fst {x})))"), Sc("R", f"(snd (fst (fst {x})))"))
+    pol.fields["__call__"] = Prim(call)
+    names = ["observation", "next_observation", "action", "reward", "done", "timeout", "state", "next_state"]
+
+    def add(ex, n, args, kwargs):
+        if len(args) != 8 or kwargs:
+            fail(n, "buffer.add call form")
+        return Obj(dict(zip(names, args)), "added")
+    b["policy"] = pol
+    b["state"] = Obj({"env_state": O("es"), "policy_state": O("ps"), "callback_state": O("cbs"), "buffer": Obj({"add": Prim(add)}, "buffer")}, "step_state")
+    b["self"] = Obj({}, "algo")
+    b["@AbstractOffPolicyStepState"] = Prim(lambda ex, n, a, k: Obj(dict(zip(["env_state", "policy_state", "callback_state", "buffer"], a)), "step_state")
+                                            if len(a) == 4 and not k else fail(n, "step state form"))
+    return b
+
+
+def _offstep_out(res, ex):
+    if not (isinstance(res, Obj) and set(res.fields) == {"env_state", "policy_state", "callback_state", "buffer"}):
+        raise TranslateError("step no longer returns the off-policy step state")
+    cb, added = res.fields["callback_state"], res.fields["buffer"]
+    if not (isinstance(cb, Obj) and cb.name == "callback_result" and isinstance(added, Obj) and added.name == "added"):
+        raise TranslateError("the new buffer is not state.buffer.add(...) / the callback state is not callback.on_step(...)")
+    ctx = cb.fields["ctx"]
+    if term_of(ctx.fields["state"]) != "cbs":
+        raise TranslateError("the callback is not handed its own previous state")
+    f = added.fields
+    return [("env_state", "S", term_of(res.fields["env_state"])), ("policy_state", "PS", term_of(res.fields["policy_state"])),
+            ("obs", "O", term_of(f["observation"])), ("next_obs", "O", term_of(f["next_observation"])), ("act", "Q", term_of(f["action"])),
+            ("rew", "Q", term_of(f["reward"])), ("done", "bool", term_of(f["done"])), ("timeout", "bool", term_of(f["timeout"])),
+            ("ps", "PS", term_of(f["state"])), ("nps", "PS", term_of(f["next_state"])),
+            ("cb_done", "bool", term_of(ctx.fields["done"])), ("cb_reward", "Q", term_of(ctx.fields["reward"])), ("cb_key", "kpath", term_of(cb.fields["key"]))]
+
+
 def _step_out(res, ex):
     if not (isinstance(res, tuple) and len(res) == 6):
         raise TranslateError("step no longer returns (state, observation, reward, terminal, truncate, info)")
@@ -379,6 +507,12 @@ def _aw_state_out(res, ex):
 
 
 KERNELS = {
+    "C04": [Kernel("onstep", "algorithm/on_policy.py", "AbstractActorCriticOnPolicyAlgorithm", "step", _onstep_bind,
+                   "{S PS O CB : Type} (gamma : Q) (E : env S Q O) (P : acpol PS Q O) (es : S) (ps : PS) (cbs : CB) (k : kpath)",
+                   _onstep_out, carrier="Q", prims={"jnp.clip": Prim(_p_clip_space)})],
+    "C05": [Kernel("offstep", "algorithm/off_policy.py", "AbstractOffPolicyAlgorithm", "step", _offstep_bind,
+                   "{S PS O CB : Type} (E : env S Q O) (P : acpol PS Q O) (es : S) (ps : PS) (cbs : CB) (k : kpath)",
+                   _offstep_out, carrier="Q", prims={"jnp.clip": Prim(_p_clip_space)})],
     "C01": [Kernel("step", "env/base_env.py", "AbstractEnvLike", "step",
                    lambda: {"self": env_obj("E"), "state": O("s"), "action": O("a"), "key": K("k")},
                    "{S A O : Type} (E : env S A O) (s : S) (a : A) (k : kpath)", _step_out, carrier="Q"),
@@ -501,7 +635,7 @@ def coq_text(pid, imports=()):
     return "\n".join(parts)
 
 
-IMPORTS = {"C19": ("Logging",), "C06": ("Replay",), "C01": ("Env",), "C13": ("Env",)}
+IMPORTS = {"C19": ("Logging",), "C06": ("Replay",), "C01": ("Env",), "C13": ("Env",), "C04": ("Env", "OnPolicy"), "C05": ("Env", "OnPolicy")}
 
 
 def generate(pid, coq_dir: Path):
